@@ -562,6 +562,31 @@ class Discharger:
                     if z[0] == "call" and z[1].endswith("Read::read") and is_ok_payload and len(z[2]) > 1 and buffer_root(z[2][1]) == buffer_root(base):
                         self.ctx.assume("inner readers obey the io::Read contract (returned count <= buffer length)")
                         return ("D-READ-CONTRACT", "`buf[..n]` with n the count returned by a read into that same buffer")
+            # the end is a variable assigned on several branches (`let len = match limit { Some(n) => n.min(buf.len()), None => buf.len() }`):
+            # every one of its values is the slice's own length, or the minimum of that length and something else
+            def is_len_of_base(a):
+                return (a[0] == "call" and re.search(r"::len$", a[1]) and a[2] and (taint.origin_eq(a[2][0], base) or origin_str(a[2][0]).lstrip("&*") == origin_str(base).lstrip("&*"))) or \
+                       (a[0] == "unop" and a[1] == "PtrMetadata" and origin_str(a[2]).lstrip("&*") == origin_str(base).lstrip("&*"))
+            def bounded_by_len(e, depth=0):
+                if depth > 4:
+                    return False
+                if is_len_of_base(e):
+                    return True
+                if e[0] == "call" and re.search(r"::min$", e[1]):
+                    return any(is_len_of_base(a) or bounded_by_len(a, depth + 1) for a in e[2])
+                if e[0] == "local":
+                    alts = []
+                    for d in f.defs().get(e[1], []):
+                        if d[0] == "assign":
+                            alts.append(f.origin(d[3]["op"]) if d[3]["rv"] == "use" else (("unop", d[3]["op"], f.origin(d[3]["a"])) if d[3]["rv"] == "unop" else ("unknown",)))
+                        elif d[0] == "call":
+                            alts.append(("call", call_name(d[2]), [f.origin(a) for a in d[2]["args"]], d[1]))
+                        else:
+                            return False
+                    return bool(alts) and all(bounded_by_len(a, depth + 1) for a in alts)
+                return False
+            if end[0] == "local" and bounded_by_len(end):
+                return ("D-GUARDED-INDEX", "`..end` where end is, on every branch, the slice's length or the minimum of it and something else")
             # `buf[..buf.len().min(n)]`: the end is the minimum of the slice's own length and something else
             if end[0] == "call" and re.search(r"::min$", end[1]):
                 for a in end[2]:
@@ -932,7 +957,7 @@ def panic_census(ctx, RULE, reg=None, fns=None):
         if r is None:
             rid, rbb = g.id, bb
             if rid in covered and (rid, rbb) not in visited:
-                r = ("D-ABS-UNREACHABLE", "not reached on any abstract path of the public entry points of this module started from the states its typestate / hand-off rules establish (C06, C01, C09)")
+                r = ("D-ABS-UNREACHABLE", "not reached on any abstract path of the public entry points of this module started from the states its typestate / hand-off rules establish (C06, C01, C09; the response printer: from any state)")
         results[(g.id, bb)] = r
     # poison phase: a lock site is fine iff nothing undischarged can panic under a guard of the same function set
     undis_fns = {gid for (gid, bb), r in results.items() if r is None}
